@@ -237,6 +237,27 @@ def main():
             if b is not None and len(b.payload) <= 1023:
                 pays.append((b.ident, b.payload))
                 em.count("4076_201.degree%d" % deg)
+        # every 12-bit message number that has no MSM layout (identities of 1 to 4 digits: "7", "11", "111", "1130", "4095" ...): both helpers
+        # answer None for its stub / message (direct only)
+        for mid in range(4096):
+            if str(mid) in tabs.M or mid == 4076:
+                continue
+            pl = bytes([mid >> 4, (mid & 15) << 4]) + bytes(8)
+            try:
+                m_ = p.RTCMMessage(payload=pl)
+            except Exception:  # noqa
+                continue
+            em.direct_evaluations += 1
+            for fn_ in (p.parse_msm, p.parse_4076_201):
+                try:
+                    r_ = fn_(m_)
+                except Exception as e:  # noqa
+                    r_ = repr(e)
+                if r_ is not None:
+                    em.violation("C18: %s on message number %d (identity %r, not an implemented MSM type) returned / raised %s instead of None" % (fn_.__name__, mid, m_.identity, str(r_)[:80]),
+                                 {"payload": pl.hex()}, {})
+                    break
+        em.count("sweep.non_msm_numbers", 4096)
         others = rng.sample([k for k in tabs.ALL if k not in tabs.M and k != "4076_201"], 30 if thorough else 12)
         for ident in others:
             b = gen.build(tabs, ident, rng, maxcount=2)
